@@ -213,15 +213,29 @@ const D_KINDS: &[&str] = &["hkdf", "pbkdf2", "scrypt", "argon2"];
 
 pub struct KdfProbe;
 
-fn hkdf_run(digest: &str, salt: &[u8], ikm: &[u8], info: &[u8], l: usize) -> (Vec<u8>, Vec<u8>) {
+/// `used`: history of the digest object handed to hkdf_extract / hkdf_expand - 0 fresh, 1 bytes pending, 2 result
+/// already taken (both functions take the object by value and start from its reset state)
+fn hkdf_run(digest: &str, salt: &[u8], ikm: &[u8], info: &[u8], l: usize, used: u8) -> (Vec<u8>, Vec<u8>) {
+    use cryptoxide::digest::Digest;
     use cryptoxide::hkdf::{hkdf_expand, hkdf_extract};
     use cryptoxide::{sha1, sha2, sha3};
     macro_rules! go {
         ($d:expr, $n:expr) => {{
+            let mk = || {
+                let mut d = $d;
+                if used >= 1 {
+                    d.input(b"bytes fed to the digest object before it was handed over");
+                }
+                if used >= 2 {
+                    let mut o = vec![0u8; $n];
+                    d.result(&mut o);
+                }
+                d
+            };
             let mut prk = vec![0u8; $n];
-            hkdf_extract($d, salt, ikm, &mut prk);
+            hkdf_extract(mk(), salt, ikm, &mut prk);
             let mut okm = vec![0xa5u8; l];
-            hkdf_expand($d, &prk, info, &mut okm);
+            hkdf_expand(mk(), &prk, info, &mut okm);
             (prk, okm)
         }};
     }
@@ -282,7 +296,8 @@ impl Scenario for KdfProbe {
                     let hl = [20usize, 32, 64, 28, 32];
                     let d = rng.below(5);
                     let l = match rng.below(8) { 0 => 0, 1 => 1, 2 => hl[d as usize] - 1, 3 => hl[d as usize], 4 => hl[d as usize] + 1, 5 => 255 * hl[d as usize], _ => rng.below(300) as usize };
-                    t.ops.push(Op::new(0, D_HKDF).arg(d).len(l).seed(rng.data_seed()).off(rng.below(40) as u8));
+                    let used = [0u8, 0, 1, 2][rng.below(4) as usize];
+                    t.ops.push(Op::new(used, D_HKDF).arg(d).len(l).seed(rng.data_seed()).off(rng.below(40) as u8));
                 }
                 3 | 4 | 5 => {
                     let c = match rng.below(6) { 0 => 1, 1 => 2, 2 => 3, 3 if tier == Tier::Thorough => rng.range(100, 1000), _ => rng.range(1, 20) };
@@ -322,7 +337,11 @@ impl Scenario for KdfProbe {
                     let d = (op.arg % 5) as usize;
                     let l = (op.len as usize).min(255 * hl[d]);
                     obs.hit("kdf.hkdf");
-                    let (prk, okm) = guarded(|| hkdf_run(names[d], &b, &a, &c, l)).map_err(|m| Violation::new("unexpected-panic", i, "hkdf on valid input", m, names[d]))?;
+                    let used = op.h % 3;
+                    if used > 0 {
+                        obs.hit(if used == 1 { "fault.hkdf_digest_object_with_pending_bytes" } else { "fault.hkdf_digest_object_already_finalised" });
+                    }
+                    let (prk, okm) = guarded(|| hkdf_run(names[d], &b, &a, &c, l, used)).map_err(|m| Violation::new("unexpected-panic", i, "hkdf on valid input", m, format!("{} (digest object history before the call: {})", names[d], ["fresh", "bytes pending", "result already taken"][used as usize])))?;
                     obs.out(&prk);
                     obs.out(&okm);
                 }
